@@ -519,7 +519,7 @@ fn pl_ligtable(p: &Prog) -> String {
         }
         let [skip, next, op, rem] = *w;
         if op >= 128 {
-            writeln!(s, " (KRN C {} R {})", next as char, ["0.1", "-0.25"][rem as usize]).unwrap();
+            writeln!(s, " (KRN C {} R {})", next as char, ["0.1", "-0.25", "0.0", "0.0"][rem as usize]).unwrap();
         } else {
             let form = FORM_NAMES[FORMS.iter().position(|f| *f == op).expect("standard form")];
             writeln!(s, " ({form} C {} C {})", next as char, rem as char).unwrap();
@@ -791,10 +791,10 @@ fn write_tfm(p: &Prog, sw: u32) -> Vec<u8> {
     // lig/kern array
     let mut words: Vec<[u8; 4]> = vec![];
     let mut kern: Vec<i32> = KERNS.to_vec();
-    let mut kmap: Vec<u8> = vec![0, 1];
+    let mut kmap: Vec<u8> = vec![0, 1, 2, 3];
     if has(16) {
-        kern = vec![KERNS[1], KERNS[1], KERNS[0]];
-        kmap = vec![2, 1];
+        kern = vec![KERNS[1], KERNS[1], KERNS[0], 0];
+        kmap = vec![2, 1, 3, 3];
     }
     let n_restart = if has(8) { p.starts.len() } else { 0 };
     let front = (p.rbc.is_some() as usize).max(0);
